@@ -201,7 +201,7 @@ func reqSetOf(c *Case, idx []int) string {
 }
 
 func TestBatchRoundTrip(t *testing.T) {
-	ev.Rule(chk, "rapid: batches of 1-40 valid queued operations over 1-6 DIDs: any mix and order of the four types, repeated suffixes (2+ operations for one DID), deactivate-only, update-only, create-only, single-operation batches, operations the intake time validator reports as expired, anchor origins of several JSON types, all key types and both hash algorithms, deltas over all eight patch actions; real OperationHandler and OperationProvider over one in-memory CAS with gzip; oracle: read-back = first non-expired queued operation per suffix, ordered create / recover / update / deactivate (queue order inside a group), same type, suffix, JSON-equal request, embedded anchor origin for create / recover; anchor string count == operations read back; references, additional and expired partition the queued multiset; non-trivial = repeated suffix, or >= 3 types, or an expired operation")
+	ev.Rule(chk, "rapid: batches of 1-40 valid queued operations over 1-6 DIDs, or (one in four) over 7-40 DIDs so that the files themselves carry up to 40 operations, half of those with one shared document template (highly compressible chunk files): any mix and order of the four types, repeated suffixes (2+ operations for one DID), deactivate-only, update-only, create-only, single-operation batches, operations the intake time validator reports as expired, anchor origins of several JSON types, all key types and both hash algorithms, deltas over all eight patch actions; real OperationHandler and OperationProvider over one in-memory CAS with gzip; oracle: read-back = first non-expired queued operation per suffix, ordered create / recover / update / deactivate (queue order inside a group), same type, suffix, JSON-equal request, embedded anchor origin for create / recover; anchor string count == operations read back; references, additional and expired partition the queued multiset; non-trivial = repeated suffix, or >= 3 types, or an expired operation")
 	ev.Rapid(t, chk, 300, 4000, func(t *rapid.T) {
 		code := rapid.SampledFrom([]uint64{asm.SHA256, asm.SHA512}).Draw(t, "hash")
 		c := &Case{Code: code, Ops: gen.Batch(t, code, 40, true, "c13")}
@@ -215,7 +215,7 @@ func TestBatchRoundTrip(t *testing.T) {
 			}
 			exp = exp || o.Expired
 		}
-		ev.Record(chk, rep || len(types) >= 3 || exp, ev.Hash(c), fmt.Sprintf("types:%d", len(types)), fmt.Sprintf("repeated-suffix:%v", rep), fmt.Sprintf("expired:%v", exp), fmt.Sprintf("size:%d", len(c.Ops)/10*10))
+		ev.Record(chk, rep || len(types) >= 3 || exp, ev.Hash(c), fmt.Sprintf("types:%d", len(types)), fmt.Sprintf("repeated-suffix:%v", rep), fmt.Sprintf("expired:%v", exp), fmt.Sprintf("size:%d", len(c.Ops)/10*10), fmt.Sprintf("distinct-suffixes:%d", len(suffixes)/10*10))
 		ev.SampleFn(chk, func() interface{} {
 			var l []string
 			for _, o := range c.Ops {
